@@ -15,7 +15,7 @@ def dense_samples(col, times):
 class C17(Check):
     PID = 'C17'
     RULE = ('every operator x the four monitor kinds (with pastify for bounded-future formulas online) x degenerate data shapes: one-sample traces, a declared '
-            'and supplied but unused variable, a declared but never supplied unused variable, inputs listed in shuffled order; then seeded random formulas of '
+            'and supplied but unused variable, a declared but never supplied unused variable, inputs listed in shuffled order, object-typed variables read and written through fields with several update() calls; then seeded random formulas of '
             'the full grammar; 30% of the cases with one of the four IA-STL semantics and a random input/output assignment; expected outcome class from the model (Support.v): Ok for supported constructs, RTAMTException (at parse/pastify or at the '
             'first evaluation) for unsupported ones, never another exception and never a value for an unsupported construct; '
             'non-trivial = formula with a temporal operator; distinct by (formula, monitor kind, data shape)')
@@ -74,6 +74,12 @@ class C17(Check):
                 if sem != 'standard':
                     c['sem'], c['io'] = sem, [1, 0]
                 cases.append(c)
+        # object-typed variables read and written through fields (out.value = ... xa.value ...), several updates online
+        import re
+        for f in [('oncet', 0, 1, P), ('and', P, Q), ('hist', ('or', P, Q)), ('pred', 'geq', ('a2', 'add', ('var', 0), ('var', 1)), ('const', 1)), ('since', P, Q), ('evt', 0, 1, P)]:
+            for kind in KINDS:
+                n = rng.choice([3, 4, 6])
+                cases.append({'f': f, 'n': n, 'nv': 2, 'cols': fml.gen_trace(rng, 3, n), 'times': list(range(n)), 'shape': 'object-fields', 'kind': kind, 'perm': 0.5})
         return cases
 
     def normalize(self, c):
@@ -113,6 +119,14 @@ class C17(Check):
         past = fml.has_future(f) and kind.endswith('online') and not any(s[0] in fml.UNB_FUTURE for s in fml.subformulas(f))
         if past:
             base['pastify'] = True
+        if shape == 'object-fields':
+            import re
+            base['spec'] = 'out.value = ' + re.sub(r'\b(x[a-e])\b', r'\1.value', fml.to_text(f))
+            base['objvars'] = vars_ + ['out']
+            if kind == 'dense-online':
+                # one sample per update(): the monitor is called several times
+                base['calls'] = [['update', [[nm(i), dense_samples(col(i), c['times'])[k:k + 1]] for i in order]] for k in range(n)]
+                return [base]
         if kind == 'discrete-offline':
             data = {'time': c['times']}
             for i in order:
